@@ -208,6 +208,7 @@ func (d *DiskQueue) skipToNextRWFile() error {
 			log.Printf("ERROR: diskqueue(%s) failed to remove data file - %s", d.name, innerErr.Error())
 			err = innerErr
 		}
+		verifCrashPoint("skip-remove")
 	}
 
 	d.writeFileNum++
@@ -281,6 +282,7 @@ func (d *DiskQueue) readOne() ([]byte, error) {
 
 		d.nextReadFileNum++
 		d.nextReadPos = 0
+		verifCrashPoint("read-rollover")
 	}
 
 	return readBuf, nil
@@ -297,6 +299,7 @@ func (d *DiskQueue) writeOne(data []byte) error {
 		if err != nil {
 			return err
 		}
+		verifCrashPoint("segment-open")
 
 		log.Printf("DISKQUEUE(%s): writeOne() opened %s", d.name, curFileName)
 
@@ -330,6 +333,7 @@ func (d *DiskQueue) writeOne(data []byte) error {
 		d.writeFile = nil
 		return err
 	}
+	verifCrashPoint("segment-write")
 
 	totalBytes := int64(4 + dataLen)
 	d.writePos += totalBytes
@@ -338,6 +342,7 @@ func (d *DiskQueue) writeOne(data []byte) error {
 	if d.writePos > d.maxBytesPerFile {
 		d.writeFileNum++
 		d.writePos = 0
+		verifCrashPoint("write-rollover")
 
 		// sync every time we start writing to a new file
 		err = d.sync()
@@ -363,6 +368,7 @@ func (d *DiskQueue) sync() error {
 			d.writeFile = nil
 			return err
 		}
+		verifCrashPoint("segment-fsync")
 	}
 
 	err := d.persistMetaData()
@@ -414,6 +420,7 @@ func (d *DiskQueue) persistMetaData() error {
 	if err != nil {
 		return err
 	}
+	verifCrashPoint("meta-tmp-open")
 
 	_, err = fmt.Fprintf(f, "%d\n%d,%d\n%d,%d\n",
 		atomic.LoadInt64(&d.depth),
@@ -423,10 +430,12 @@ func (d *DiskQueue) persistMetaData() error {
 		f.Close()
 		return err
 	}
+	verifCrashPoint("meta-tmp-write")
 	f.Sync()
 	f.Close()
 
 	// atomically rename
+	defer verifCrashPoint("meta-rename")
 	return os.Rename(tmpFileName, fileName)
 }
 
@@ -475,6 +484,7 @@ func (d *DiskQueue) moveForward() {
 	d.readFileNum = d.nextReadFileNum
 	d.readPos = d.nextReadPos
 	depth := atomic.AddInt64(&d.depth, -1)
+	verifCrashPoint("move-forward")
 
 	// see if we need to clean up the old file
 	if oldReadFileNum != d.nextReadFileNum {
@@ -486,6 +496,7 @@ func (d *DiskQueue) moveForward() {
 		if err != nil {
 			log.Printf("ERROR: failed to Remove(%s) - %s", fn, err.Error())
 		}
+		verifCrashPoint("segment-remove")
 	}
 
 	d.checkTailCorruption(depth)
@@ -513,6 +524,7 @@ func (d *DiskQueue) handleReadError() {
 	if err != nil {
 		log.Printf("ERROR: diskqueue(%s) failed to rename bad diskqueue file %s to %s", d.name, badFn, badRenameFn)
 	}
+	verifCrashPoint("bad-file-rename")
 
 	d.readFileNum++
 	d.readPos = 0
